@@ -673,6 +673,9 @@ func corpus() []core.Case {
 		withDump(mk(strings.Fields("ccba abbbb caa acc bbb abaaaa bcc aabac aabab baaa cbcb acb aca bba bca bab cab abbbc bcb cac abca"), "findall abaaaabac", "fuzzy abaaaa")),
 		withDump(mk(strings.Fields("acabc aacb baa bac cab bba ccc acb abac abbb bca cca cba cbc ccb acaa bbb bcb bbc abbc bcc"), "findall acabcabbc", "fuzzy acabc")),
 	)
+	cases = append(cases, BigCorpus("C05", func(text []byte) []string {
+		return []string{"match " + Hex(text), "findall " + Hex(text), "match " + Hex(text[200:300])}
+	}))
 	// histories: Insert…, Build, Insert…, Build
 	cases = append(cases, HistoryCorpus("C05", "findall abcdushersa你b", "match xbc", "fuzzy abcd", "prefix a", "findall a\xffb")...)
 	return cases
